@@ -155,7 +155,10 @@ Definition adv (c : fmt_config) (s : st) (t : tok) : st :=
         else if kis k KRParen then RBody w (dr && negb (Nat.eqb d 0)) (pred d)
         else RBody w dr d
     end in
-  St m' p' depth' fn' hdr' tblp' tbl' k rt' (dp s).
+  (* the token that ends a top-level declaration leaves the initial state *)
+  if (kis k KRBrace && Nat.leb (depth s) 1) || (kis k KSemi && Nat.eqb (depth s) 0)
+  then St MStart false 0 false None false false KSemi RNo (dp s)
+  else St m' p' depth' fn' hdr' tblp' tbl' k rt' (dp s).
 
 (* ---------------------------------------------------------------- one step *)
 Inductive patch := PNone | PSetDp | PClrDp | PRetOpen | PRetClose.
@@ -165,7 +168,7 @@ Inductive action :=
 | ADrop (p : patch)              (* emit nothing; the comments go to the next token *)
 | AInsBefore (x : tok)           (* comments, x, token *)
 | AInsSplit (x : tok)            (* comments on the previous line, x, the other comments, token *)
-| AInsAfterComments (x : tok)    (* x, comments, token            ("return (" <comments> value) *)
+| AInsClose (n : nat)            (* comments, n closing parentheses, token      (return ( value ")" ;) *)
 | AReplace (ts : list tok).      (* comments, ts *)
 
 Definition nk_is (nk : option kind) (k : kind) : bool :=
@@ -196,13 +199,12 @@ Definition decide (c : fmt_config) (s : st) (t : tok) (nk : option kind) : actio
               || match hdr s with Some (1, _) => true | _ => false end)
        then ADrop PSetDp                                   (* call f() ; sub f() *)
   else match rt s with
-  | RWant true =>
-      if kis k KSemi || kis k KLParen then normal c s t nk else AInsAfterComments t_lparen
+  | RWant true => normal c s t nk                         (* the "(" is inserted by [step] *)
   | RWant false =>
       if kis k KLParen && negb (nk_is nk KLParen) then ADrop PRetOpen else normal c s t nk
   | RBody w dr d =>
       if kis k KRParen && Nat.eqb d 0 && dr && nk_is nk KSemi then ADrop PRetClose
-      else if kis k KSemi && w && Nat.ltb 0 d then AInsBefore t_rparen
+      else if kis k KSemi && w && Nat.ltb 0 d then AInsClose d
       else normal c s t nk
   | RNo => normal c s t nk
   end.
@@ -220,7 +222,11 @@ Definition emit (a : action) (cs : list com) (t : tok) : list item * list com :=
   | ADrop _ => ([], cs)
   | AInsBefore x => ([(cs, x); ([], t)], [])
   | AInsSplit x => let (a0, b0) := split_lf0 cs in ([(a0, x); (b0, t)], [])
-  | AInsAfterComments x => ([([], x); (cs, t)], [])
+  | AInsClose n =>
+      match n with
+      | 0 => ([(cs, t)], [])
+      | S m => ((cs, t_rparen) :: map (fun y => ([], y)) (repeat t_rparen m ++ [t]), [])
+      end
   | AReplace ts =>
       match ts with
       | [] => ([(cs, t)], [])
@@ -239,13 +245,28 @@ Definition apply_patch (p : patch) (s : st) : st :=
       St (mode s) (pe s) (depth s) (fn s) (hdr s) (tblp s) (tbl s) (prev s) r (dp s)
   end.
 
-Definition step (c : fmt_config) (s : st) (cs : list com) (t : tok) (nk : option kind)
+Definition step0 (c : fmt_config) (s : st) (cs : list com) (t : tok) (nk : option kind)
   : list item * st * list com :=
   let a := decide c s t nk in
   let (out, carry) := emit a cs t in
   let s1 := fold_left (adv c) (map snd out) s in
   let s2 := match a with ADrop p => apply_patch p s1 | _ => s1 end in
   (out, s2, carry).
+
+(* "return" was just emitted and parentheses are wanted: unless the value starts with one (or there
+   is no value) a "(" is emitted first - before the comments of the value - and the token is
+   then handled as usual *)
+Definition opens_return (s : st) (t : tok) : bool :=
+  match rt s with
+  | RWant true => negb (kis (tk t) KSemi || kis (tk t) KLParen)
+  | _ => false
+  end.
+
+Definition step (c : fmt_config) (s : st) (cs : list com) (t : tok) (nk : option kind)
+  : list item * st * list com :=
+  if opens_return s t
+  then let '(out, s', carry) := step0 c (adv c s t_lparen) cs t nk in (([], t_lparen) :: out, s', carry)
+  else step0 c s cs t nk.
 
 Definition head_kind (its : list item) : option kind :=
   match its with (_, t) :: _ => Some (tk t) | [] => None end.
